@@ -29,9 +29,13 @@ func c13MakePool(n int) c13Pool {
 		mk   func() ap.Item
 	}{
 		{"iri0", func() ap.Item { return id(0) }},
-		{"obj1", func() ap.Item { return &ap.Object{ID: id(1), Type: ap.NoteType, Name: ap.NaturalLanguageValues{{Ref: "-", Value: ap.Content("n")}}} }},
+		{"obj1", func() ap.Item {
+			return &ap.Object{ID: id(1), Type: ap.NoteType, Name: ap.NaturalLanguageValues{{Ref: "-", Value: ap.Content("n")}}}
+		}},
 		{"actor2", func() ap.Item { return &ap.Actor{ID: id(2), Type: ap.PersonType, Inbox: id(2) + "/inbox"} }},
-		{"activity3", func() ap.Item { return &ap.Activity{ID: id(3), Type: ap.LikeType, Object: ap.IRI("https://example.com/liked")} }},
+		{"activity3", func() ap.Item {
+			return &ap.Activity{ID: id(3), Type: ap.LikeType, Object: ap.IRI("https://example.com/liked")}
+		}},
 		{"objval4", func() ap.Item { return ap.Object{ID: id(4), Type: ap.ArticleType} }},
 	}
 	p := c13Pool{}
